@@ -22,6 +22,7 @@ RULE = ("operation sequences of length 2..7 on the real default stack [bottom pr
         "messages, per send against Model/SendNumbering. stream 'sockreset': the real asyncore dispatcher (tracked locks) over a socket whose send fails with a "
         "disconnect errno. stream 'parked': a contact without a session whose key request fails, then later messages of that contact. distinct = distinct op sequence.")
 RULE += (" Keep-alive rounds also with a ping of the application's own and with a stray pong.")
+RULE += (" Stanza refused by the coder at its last attribute (send-unencodable-late); the frame of a follow-up send is compared with the stanza's own encoding.")
 ASSUMPTIONS = ["operations are issued one at a time (by any thread): locks are threading.Lock without owner, so a held lock at quiescence means "
                "every later acquire blocks forever — detected deterministically by tracked locks instead of timeouts",
                "the sequence streams issue one operation at a time; concurrent receives (with a failure while another thread's frame is queued) are run "
@@ -33,6 +34,7 @@ IDX = {"bottom": 0, "segments": 1, "noise": 2, "coder": 3, "logger": 4, "control
 SEND_KINDS = {
     "send-ok": None,
     "send-unencodable": IDX["coder"],
+    "send-unencodable-late": IDX["coder"],       # the coder refuses the stanza after it has encoded most of it (a bad value in the LAST attribute)
     "send-not-ready": IDX["noise"],
     "send-write-error": IDX["bottom"],
     "send-oversized": IDX["segments"],
@@ -113,6 +115,8 @@ def cases(chk):
     rk = list(RECV_KINDS)
     # corpus: the two leak shapes first
     yield "seq", {"ops": ["send-unencodable", "send-ok"], "threads": [0, 1]}
+    yield "seq", {"ops": ["send-unencodable-late", "send-ok", "send-ok"], "threads": [0, 1, 0]}
+    yield "seq", {"ops": ["send-ok", "send-unencodable-late", "recv-ping", "send-ok"], "threads": [0, 0, 1, 1]}
     yield "seq", {"ops": ["send-write-error", "send-ok"], "threads": [0, 0]}
     yield "seq", {"ops": ["recv-callback-raises", "recv-ok"], "threads": [0, 1]}
     yield "seq", {"ops": ["recv-undecodable", "recv-ok", "send-ok"], "threads": [0, 0, 0]}
@@ -521,6 +525,12 @@ def run_dispatchers(chk, case):
     return fails
 
 
+def _fresh_encoding(entity):
+    from yowsup.layers.coder.encoder import WriteEncoder
+    from yowsup.layers.coder.tokendictionary import TokenDictionary
+    return bytes(bytearray(WriteEncoder(TokenDictionary()).protocolTreeNodeToBytes(entity.toProtocolTreeNode())))
+
+
 def run_keepalive(chk, case):
     """the iq layer's keep-alive on the real default stack: per round, what YowPingThread.run does when its interval has elapsed (waitPong + sendIq
     of a fresh ping), then the server's answer — handled normally, with the application callback raising, with the reply's frame undecodable, or no
@@ -900,6 +910,8 @@ def run_case(chk, stream, case):
         if kind.startswith("send"):
             if kind == "send-unencodable":
                 ent = PresenceProtocolEntity(name=u"cafĀ")
+            elif kind == "send-unencodable-late":
+                ent = None
             elif kind == "send-oversized":
                 from yowsup.structs import ProtocolTreeNode
                 ent = None
@@ -913,6 +925,11 @@ def run_case(chk, stream, case):
                     # enter below the protocol layers with a raw node carrying >= 16 MiB
                     from yowsup.structs import ProtocolTreeNode
                     insts[IDX["control"]].send(ProtocolTreeNode("x", {}, None, bytes(16777216)))
+                elif kind == "send-unencodable-late":
+                    from yowsup.structs import ProtocolTreeNode
+                    bad_node = ProtocolTreeNode("receipt", {"id": "late-%d" % seq, "to": "4915112345@s.whatsapp.net", "type": "read"})
+                    bad_node.attributes["participant"] = None          # an attribute value that is not a string: refused when the encoder gets to it
+                    insts[IDX["control"]].send(bad_node)
                 else:
                     stack.send(ent)
             model = d.ask("locks send %s" % ("-" if SEND_KINDS[kind] is None else SEND_KINDS[kind])) if kind != "send-oversized" else None
@@ -990,6 +1007,11 @@ def run_case(chk, stream, case):
                     % (opi, kind, tr_.written[-1], len(tr_.written) - 1))
         elif kind == "send-ok" and len(bottom.sent) - nb != 2:
             what = ("C12:followup-incomplete", "fault-free send wrote %d chunks to the network instead of header+payload" % (len(bottom.sent) - nb))
+        elif kind == "send-ok" and bytes(bottom.sent[-1]) != noisefake.wire(_fresh_encoding(ent)):
+            # ... and what it writes is the stanza, not the stanza behind whatever an earlier, failed operation left in some buffer
+            got_ = bytes(bottom.sent[-1])
+            what = ("C12:followup-frame-differs", "op #%d: the fault-free send wrote a %d-byte frame, the stanza alone encodes to %d bytes: %s… (leftovers of an earlier failed "
+                    "operation travel with it)" % (opi, len(got_), len(noisefake.wire(_fresh_encoding(ent))), got_[:24].hex()))
         elif kind.startswith("recv") and res != "blocked" and got_from != want_from:
             what = ("C12:frames-lost-or-reordered", "op #%d %s: frames delivered to the application %s, expected %s (frames queued behind a failing one must "
                     "be delivered by the next flush)" % (opi, kind, got_from, want_from))
